@@ -112,7 +112,7 @@ def check(case: dict) -> Verdict:
 def case_st(draw):
     case = draw(gen.retry_case(PROFILE))
     spec = {"threshold": draw(st.sampled_from([1, 2, 3])), "window": 640, "recovery": draw(st.sampled_from([16, 64])), "trip_on": ["TRANSIENT", "SERVER_ERROR", "UNKNOWN"]}
-    spec["pre"] = draw(st.sampled_from(["closed", "half_open_ready", "half_open_ready"]))
+    spec["pre"] = draw(st.sampled_from(["closed", "half_open_ready", "half_open_ready", "probe_released"]))
     case["cfg"]["breaker"] = spec
     case["entry"] = draw(st.sampled_from(ENTRIES))
     for c in case["calls"]:
@@ -127,8 +127,8 @@ PROP = Property(
     rule=(
         "Hypothesis picks (config, outcome script incl. KeyboardInterrupt/SystemExit/CancelledError/GeneratorExit/nested "
         "CircuitOpenError/RetryExhaustedError/AbortRetryError raised by the operation, abort poll index, handler decisions, "
-        "entry point in {Policy, AsyncPolicy} x {call, execute} x {retry, no retry}, breaker closed or half-open with this call "
-        "as the probe); for that case EVERY crash point is enumerated: the j-th invocation of each callback (classifier, result "
+        "entry point in {Policy, AsyncPolicy} x {call, execute} x {retry, no retry}, breaker closed, ready for its first probe, or "
+        "half-open with the slot released by an aborted probe); for that case EVERY crash point is enumerated: the j-th invocation of each callback (classifier, result "
         "classifier, strategy, sleep handler, sleeper, abort_if, on_attempt_start/end, hooks) raising an ordinary exception / "
         "KeyboardInterrupt / SystemExit (/CancelledError), and for async entries CancelledError / KeyboardInterrupt / SystemExit "
         "/ an ordinary exception thrown into, or close() of, the coroutine at every suspension point (operation awaits and "
